@@ -60,6 +60,35 @@ def multi_diagnostic_programs(rng, n):
     return out
 
 
+def syntax_error_programs(rng, n, corpus_files):
+    """programs with ONE syntax error (plus a few hand-picked shapes): binder forms in operand position, leftover tokens,
+    missing parts, stray tokens -- the inputs on which the parser's recovery and error selection are exercised"""
+    shapes = ["f ({x : type} y)", "f ((x : type) y)", "f ({x} y)", "(x : type) y", "{x : type} y", "x : type", "a : = 1; a", "1 )", "f (x => ) y",
+              "f (if a then b) c", "g (x : int) -> ) 1", "a = 1; b = ; a", "f ({x : type} -> ) y", "(a b : type) => a", "f 1 2 )) 3", "if a then b else",
+              "x = (y : int) => ; x", "{x : type} => => x", "f ({x : int} 1) ({y : int} 2)", "a = f ({x : type} y); a"]
+    stray = [")", "(", "=>", "->", ":", "=", "then", "else", "{x : type}", ";", "}", "{", "if"]
+    out = list(shapes)
+    srcs = []
+    for f in corpus_files:
+        try:
+            t = "\n".join(l for l in open(f, errors="replace").read().split("\n") if not l.startswith("#"))
+            if 0 < len(t) < 400: srcs.append(t)
+        except Exception:
+            pass
+    while len(out) < n + len(shapes) and srcs:
+        t = rng.choice(srcs)
+        chunks = t.split(" ")
+        if len(chunks) < 3: continue
+        k = rng.randrange(len(chunks))
+        kind = rng.randrange(4)
+        if kind == 0: del chunks[k]
+        elif kind == 1: chunks.insert(k, rng.choice(stray))
+        elif kind == 2 and k + 1 < len(chunks): chunks[k], chunks[k + 1] = chunks[k + 1], chunks[k]
+        else: chunks[k] = rng.choice(stray)
+        out.append(" ".join(chunks))
+    return out
+
+
 def c13_step(tier, seed, rundir, log):
     hits, cov = [], {}
     ok, out = build_gram(log)
@@ -72,6 +101,11 @@ def c13_step(tier, seed, rundir, log):
     progs = multi_diagnostic_programs(rng, 120 if tier == "thorough" else 40)
     for i, src in enumerate(progs):
         p = os.path.join(d, f"multi{i}.g")
+        open(p, "w").write(src)
+        files.append(p)
+    corpus_files = list(files)
+    for i, src in enumerate(syntax_error_programs(rng, 150 if tier == "thorough" else 50, [f for f in corpus_files if "multi" not in os.path.basename(f)])):
+        p = os.path.join(d, f"syntax{i}.g")
         open(p, "w").write(src)
         files.append(p)
     launches = 50 if tier == "thorough" else 8
@@ -100,6 +134,7 @@ def c13_step(tier, seed, rundir, log):
                 r = next(iter(outs.values()))
                 samples.append(f"gram {mode} {os.path.basename(f)}: {launches} launches identical (exit {r[0]}, {len(r[1])} bytes stdout, {len(r[2])} bytes stderr)")
     multi = sum(1 for f in files if "multi" in os.path.basename(f))
+    cov["cli_syntax_error_files"] = sum(1 for f in files if os.path.basename(f).startswith("syntax"))
     cov.update({"evaluations": n_launch, "distinct_nontrivial": len(distinct_inputs), "samples": samples,
                 "cli_files": len(files), "cli_multi_diagnostic_files": multi, "launches_per_file_and_mode": launches})
     return hits, cov
